@@ -118,6 +118,17 @@ pub fn large_cfgs() -> Vec<Cfg> {
             v.push(Cfg::Fb { kind: FbKind::Payload, sender: 3, media: 4, fci: Fci::Fir((0..((total - 12) / 8) as u32).map(|i| (i * 2 + 1, i as u8)).collect()), padding: 0 });
         }
     }
+    // sizes whose length field has the low octet 0xff or 0x00 (a carry between the two octets of the field)
+    for hi in [0usize, 1, 2, 3, 7, 8, 15, 16, 31, 32, 63, 64, 127, 128] {
+        for lo in [0xffusize, 0x00] {
+            let total = 4 * ((hi << 8 | lo) + 1);
+            if total < 16 {
+                continue;
+            }
+            v.push(Cfg::Unknown { pt: 198, count: 2, data: (0..total - 4 - 4).map(|i| (i * 13 + 7) as u8).collect(), padding: 4 });
+            v.push(Cfg::App { ssrc: 0x0102_0304, subtype: 1, name: "cary".into(), data: (0..total - 12).map(|i| (i * 17 + 1) as u8).collect(), padding: 0 });
+        }
+    }
     // padded variants just above the 16-bit byte boundary
     v.push(Cfg::App { ssrc: 1, subtype: 0, name: "pad".into(), data: vec![0x33; 65_536], padding: 8 });
     v.push(Cfg::Unknown { pt: 210, count: 0, data: vec![0x44; 65_532], padding: 4 });
